@@ -48,7 +48,39 @@ SENT_V2 = "{191*7}"  # Colang 2.x string interpolation syntax
 MARK_L, MARK_R = "ZQX", "QXZ"
 FIXED_REPLIES = ["I'm sorry, an internal error has occurred.", "I'm not sure what to say."]
 
-# ----------------------------------------------------------------------------- static tie
+# ----------------------------------------------------------------------------- translator + static tie
+_TINFO = {}
+
+EXPECTED_SINKS = [
+    ("actions/llm/generation.py", "generate_user_intent", "render_task_prompt", "Task.GENERATE_USER_INTENT"),
+    ("actions/llm/generation.py", "generate_user_intent", "render_task_prompt", "Task.GENERAL"),
+    ("actions/llm/generation.py", "generate_next_step", "render_task_prompt", "Task.GENERATE_NEXT_STEPS"),
+    ("actions/llm/generation.py", "_render_string", "from_string", "template_str"),
+    ("actions/llm/generation.py", "generate_bot_message", "_render_string", "bot_utterance"),
+    ("actions/llm/generation.py", "generate_bot_message", "render_task_prompt", "Task.GENERATE_BOT_MESSAGE"),
+    ("actions/llm/generation.py", "generate_value", "render_task_prompt", "Task.GENERATE_VALUE"),
+    ("actions/llm/generation.py", "generate_intent_steps_message", "render_task_prompt", "Task.GENERATE_INTENT_STEPS_MESSAGE"),
+    ("actions/llm/generation.py", "generate_intent_steps_message", "render_task_prompt", "Task.GENERAL"),
+    ("actions/v2_x/generation.py", "generate_user_intent", "render_task_prompt", "Task.GENERATE_USER_INTENT_FROM_USER_ACTION"),
+    ("actions/v2_x/generation.py", "generate_user_intent_and_bot_action", "render_task_prompt", "Task.GENERATE_USER_INTENT_AND_BOT_ACTION_FROM_USER_ACTION"),
+    ("actions/v2_x/generation.py", "generate_flow_from_instructions", "render_task_prompt", "Task.GENERATE_FLOW_FROM_INSTRUCTIONS"),
+    ("actions/v2_x/generation.py", "generate_flow_from_name", "render_task_prompt", "Task.GENERATE_FLOW_FROM_NAME"),
+    ("actions/v2_x/generation.py", "generate_flow_continuation", "render_task_prompt", "Task.GENERATE_FLOW_CONTINUATION"),
+    ("actions/v2_x/generation.py", "generate_value", "render_task_prompt", "Task.GENERATE_VALUE_FROM_INSTRUCTION"),
+    ("actions/v2_x/generation.py", "generate_flow", "_render_string", "textwrap.dedent(docstring)"),
+    ("actions/v2_x/generation.py", "generate_flow", "render_task_prompt", "Task.GENERATE_FLOW_CONTINUATION_FROM_NLD"),
+]
+
+
+def translate():
+    """dataflow IR of the three anchored modules + `re` Unicode tables -> Generated/C17Dataflow.lean, C17Tables.lean"""
+    from ..translate import c17 as tr
+
+    info = tr.run()
+    _TINFO.clear()
+    _TINFO.update(info)
+    return info
+
 
 
 def _call_name(node):
@@ -66,6 +98,12 @@ def static_tie():
     `if bot_intent in self.config.bot_messages`, on a value read from `self.bot_messages[...]`; `from_string`/`render`
     only inside `_render_string`.  v2 generation.py — exactly one `_render_string` call, on the flow docstring."""
     problems = []
+    if _TINFO.get("sinks") is not None:
+        got = [(x["file"].replace("nemoguardrails/", ""), x["function"], x["callee"], x["template"]) for x in _TINFO["sinks"] if "taskmanager" not in x["file"]]
+        if got != EXPECTED_SINKS:
+            new = [g for g in got if g not in EXPECTED_SINKS]
+            gone = [g for g in EXPECTED_SINKS if g not in got]
+            problems.append(f"template sink inventory of the generation modules changed (the dataflow theorem is re-checked on the new IR, the hand model is not): new {new} gone {gone}")
     tree = parse("nemoguardrails/actions/llm/generation.py")
     cls = find_def(tree, "LLMGenerationActions")
     sites = []
@@ -215,7 +253,7 @@ HOSTILE = [
     "bot $", "bot ,,\"x", "user", "user ", "user \"", "User intent: ", "Bot intent: ", "Bot message: ", "Bot intent: $secret", "bot action: ", "bot intent: ", "user intent: ",
     "user intent:", ":", "::", "a:b", "define flow", "define flow x", "define user foo\n  \"x\"", "define bot foo\n  \"x\"", "define flow a\n  bot x\ndefine flow b\n  bot y",
     "define subflow q\n  bot x", "flow x", "flow main\n  bot say \"x\"", "if $x\n  bot y", "if", "else", "when", "while True\n  bot x", "  bot x\n bot y", "\tbot x", "bot x\n\tbot y",
-    "execute foo", "execute generate_value(instructions=\"x\")", "$x = ...", "$x = execute foo()", "bot x\n$y = ...\nbot z", "stop", "abort", "return", "...", "meta", "import core", "include \"x\"",
+    "$x = x", "$x = 1 +", "if $y.z\n  bot a", "bot a\n$x = x", "execute foo", "execute generate_value(instructions=\"x\")", "$x = ...", "$x = execute foo()", "bot x\n$y = ...\nbot z", "stop", "abort", "return", "...", "meta", "import core", "include \"x\"",
     "bot inform\n  \"unterminated", "bot inform \"x\" \"y\"", "bot say \"{$secret}\"", "bot action: bot say \"" + msg_with_sentinel("{$secret}") + "\"", "bot action: bot say \"" + msg_with_sentinel(SENT_EXPR) + "\"",
     "bot action: bot say \"" + msg_with_sentinel(SENT_V2) + "\"", "bot intent: bot tell joke\nbot action: bot say \"" + msg_with_sentinel(SENT_V2) + "\"", "\"" + msg_with_sentinel(SENT_V2) + "\"",
     "bot action: await UtteranceBotAction(script=$secret)", "bot action: send Foo(", "bot action: $x = 1/0", "bot action: ", "bot intent: bot x\nbot action: bot say 'y'", "bot action: bot say \"unterminated",
@@ -259,7 +297,8 @@ def gen_cases(rng, tier):
     for h in HOSTILE:
         if len(h) <= 4000:
             cases.append({"kind": "fn", "s": h, "k": 2})
-    tasks = ["user_intent", "next_step", "bot_message", "general", "value", "single_call", "v2_user_intent", "v2_value"]
+    tasks = ["user_intent", "next_step", "bot_message", "general", "value", "single_call", "v2_user_intent", "v2_value",
+             "ms_next_step", "ms_start_flow", "v2_from_instructions", "v2_from_name", "v2_continuation", "v2_intent_and_action", "v2_flow_nld"]
     for i in range(n_act):
         cases.append({"kind": "act", "task": tasks[i % len(tasks)], "prompts": rng.choice(["instruct", "chat", "verbose"]), "s": rng.choice(HOSTILE) if rng.random() < 0.15 else g_text(rng)})
     for _ in range(n_bot):
@@ -271,7 +310,12 @@ def gen_cases(rng, tier):
 def g_botmsg(rng):
     intents = ["express greeting", "inform templated", "inform x", "", "$secret", "$", "$missing", "$num", "$empty", "$nil", "$lst", "x", " ", "$secret ", "inform templated "]
     bi = rng.choice(intents) if rng.random() < 0.8 else g_line(rng)
-    return {"kind": "botmsg", "bot_intent": bi, "s": rng.choice(HOSTILE[:120]) if rng.random() < 0.3 else g_text(rng), "prompts": rng.choice(["instruct", "chat", "verbose"])}
+    case = {"kind": "botmsg", "bot_intent": bi, "s": rng.choice(HOSTILE[:120]) if rng.random() < 0.3 else g_text(rng), "prompts": rng.choice(["instruct", "chat", "verbose"])}
+    if rng.random() < 0.4:
+        # single-call mode: the last UserIntent event carries the pre-computed BotIntent / BotMessage events
+        bm = rng.choice(['Bot message: "<<STREAMING[abc]>>"', 'Bot message: "<<STREAMING[', "I'm not sure what to say.", msg_with_sentinel(SENT_EXPR + " $secret")]) if rng.random() < 0.4 else (g_line(rng) or "x")
+        case["sc"] = [bi if rng.random() < 0.7 else rng.choice(intents), bm]
+    return case
 
 
 def gen_e2e(rng, n):
@@ -316,7 +360,7 @@ def worker_init():
 def _app(kind, prompts):
     key = (kind, prompts)
     if key not in _APPS:
-        mode = {"v1": "dialog", "v1sc": "single_call", "v1gen": "general", "v2": "v2_intent"}[kind]
+        mode = {"v1": "dialog", "v1sc": "single_call", "v1gen": "general", "v2": "v2_intent", "v1ms": "multi_step"}[kind]
         app, _ = E.make_app(mode, [], "", model=_MODEL_OF[prompts])
         if kind == "v2":
             _, state = app.process_events([], None)
@@ -372,6 +416,9 @@ def fn_impl(s, k):
         "rm_ident": U.remove_action_intent_identifiers([s])[0],
         "splitlines": s.splitlines(),
         "strip": s.strip(),
+        "escape_u": U.escape_flow_name(s),
+        "indent": __import__("textwrap").indent(s, "  "),
+        "splitlines_keep": s.splitlines(True),
     }
     if s.isascii():
         o["escape"] = U.escape_flow_name(s)
@@ -439,9 +486,9 @@ def act_impl(case):
             if task == "v2_user_intent":
                 obs["parser"] = _parser_name(app, Task.GENERATE_USER_INTENT_FROM_USER_ACTION)
                 try:
-                    obs["post_user_intent_v2"] = _run(A.generate_user_intent(state=app._verif_state, events=[], user_action='user said "zzz"', llm=llm))
+                    obs["user_intent_v2"] = _run(A.generate_user_intent(state=app._verif_state, events=[], user_action='user said "zzz"', llm=llm))
                 except Exception as e:  # noqa
-                    obs["post_user_intent_v2"] = _exc(e)
+                    obs["user_intent_v2"] = _exc(e)
             else:
                 import nemoguardrails.actions.v2_x.generation as G2
 
@@ -449,16 +496,147 @@ def act_impl(case):
                 seen = []
                 old = G2.literal_eval
                 G2.literal_eval = lambda v: seen.append(v) or v
+                tm = A.llm_task_manager
+                orig_rtp = tm.render_task_prompt
+                cap = {}
+
+                def rtp(*a, **k):
+                    cap["p"] = orig_rtp(*a, **k)
+                    return cap["p"]
+
+                tm.render_task_prompt = rtp
                 try:
                     _run(A.generate_value(state=app._verif_state, instructions="extract", events=[], var_name="v", llm=llm))
-                    # the 2.x action additionally removes the last prompt line and strips; compared when that is a no-op
-                    obs["v2_value_seen"] = seen[0]
+                    obs["value_v2"] = {"ok": seen[0]}
                 except Exception as e:  # noqa
-                    obs["v2_value_seen"] = _exc(e)
+                    obs["value_v2"] = _exc(e)
                 finally:
                     G2.literal_eval = old
-    if s.isascii() is False and task == "v2_user_intent":
-        obs["nonascii"] = True
+                    del tm.render_task_prompt
+                pr = cap.get("p")
+                if isinstance(pr, str):
+                    obs["last_prompt_line"] = pr.strip().split("\n")[-1]
+                elif isinstance(pr, list) and pr and isinstance(pr[-1].get("content"), str):
+                    obs["last_prompt_line"] = pr[-1]["content"].strip().split("\n")[-1]
+    if task in ("ms_next_step", "ms_start_flow", "v2_from_instructions", "v2_from_name", "v2_continuation", "v2_intent_and_action", "v2_flow_nld"):
+        with contextlib.redirect_stdout(io.StringIO()):
+            obs.update(gen_impl(case, llm))
+    return obs
+
+
+UUID = "abcdef0123456789abcdef"
+
+
+def _try_parse(content):
+    from nemoguardrails.colang import parse_colang_file
+
+    try:
+        with E.cpu_watchdog(4.0):
+            parse_colang_file("dynamic.co", content=content)
+        return True
+    except E.Hang:
+        return False
+    except Exception:  # noqa
+        return False
+
+
+def gen_impl(case, llm):
+    """the flow-producing bodies: multi-step next step, _process_start_flow, the 2.x GenerateFlow* actions"""
+    from nemoguardrails.llm import output_parsers as OP
+    from nemoguardrails.llm.types import Task
+
+    s, task, prompts = case["s"], case["task"], case["prompts"]
+    obs = {}
+    um = {"type": "UserMessage", "text": "hi there"}
+    ui = {"type": "UserIntent", "intent": "ask something"}
+    if task == "ms_next_step":
+        app = _app("v1ms", prompts)
+        pname = _parser_name(app, Task.GENERATE_NEXT_STEPS)
+        obs["parser"] = pname
+        pf = {"none": lambda x: x, "user_intent": OP.user_intent_parser, "bot_intent": OP.bot_intent_parser, "bot_message": OP.bot_message_parser, "verbose_v1": OP.verbose_v1_parser}[pname]
+        lines = pf(s).split("\n")
+        obs["parses"] = [["\n".join(lines[:n]), _try_parse("\n".join(lines[:n]))] for n in range(1, len(lines) + 1)]
+        try:
+            r = _run(app.llm_generation_actions.generate_next_step(events=[um, ui], llm=llm))
+            ev = r.events[0]
+            obs["ms"] = {"type": ev["type"], "intent": ev["intent"]} if ev["type"] == "BotIntent" else {"type": ev["type"], "flow_body": ev["flow_body"]}
+        except Exception as e:  # noqa
+            obs["ms"] = _exc(e)
+        return obs
+    if task == "ms_start_flow":
+        import nemoguardrails.colang.v1_0.runtime.runtime as RT
+
+        app = _app("v1ms", prompts)
+        rt = app.runtime
+        keep = dict(rt.flow_configs)
+        seen = {}
+        orig = RT.parse_colang_file
+
+        def spy(filename, content, *a, **k):
+            seen["src"] = content
+            r = orig(filename, content, *a, **k)
+            seen["flows"] = [f.get("id") for f in r.get("flows", [])]
+            return r
+
+        RT.parse_colang_file = spy
+        fid = "dyn-" + UUID[:8]
+        try:
+            with E.cpu_watchdog(6.0):
+                res = _run(rt._process_start_flow([um, ui, {"type": "start_flow", "flow_id": fid, "flow_body": s}], processing_log=[]))
+            obs["start_flow"] = {"ok": [e.get("type") + (":" + e.get("intent", "") if e.get("type") == "BotIntent" else "") for e in res]}
+        except E.Hang:
+            obs["start_flow"] = {"err": "Hang"}
+        except Exception as e:  # noqa
+            obs["start_flow"] = _exc(e)
+        finally:
+            RT.parse_colang_file = orig
+            rt.flow_configs = keep
+        obs["flow_id"] = fid
+        obs["src"] = seen.get("src")
+        obs["parses_flow"] = seen.get("flows") == [fid]
+        return obs
+    # ---- Colang 2.x
+    import nemoguardrails.actions.v2_x.generation as G2
+
+    app = _app("v2", prompts)
+    A = app.llm_generation_actions
+    st = app._verif_state
+    old_uuid = G2.new_uuid
+    G2.new_uuid = lambda: UUID
+    try:
+        if task == "v2_from_instructions":
+            try:
+                obs["from_instructions"] = {"ok": _run(A.generate_flow_from_instructions(state=st, instructions="do it", events=[], llm=llm))}
+            except Exception as e:  # noqa
+                obs["from_instructions"] = _exc(e)
+            obs["name"] = "dynamic_" + UUID[:4]
+        elif task == "v2_from_name":
+            obs["name"] = "bot tell joke"
+            try:
+                obs["from_name"] = {"ok": _run(A.generate_flow_from_name(state=st, name="bot tell joke", events=[], llm=llm))}
+            except Exception as e:  # noqa
+                obs["from_name"] = _exc(e)
+        elif task == "v2_continuation":
+            try:
+                r = _run(A.generate_flow_continuation(state=st, events=[], llm=llm))
+                obs["continuation"] = {"ok": {"name": r["name"], "body": r["body"]}}
+            except Exception as e:  # noqa
+                obs["continuation"] = _exc(e)
+        elif task == "v2_intent_and_action":
+            obs["parser"] = _parser_name(app, Task.GENERATE_USER_INTENT_AND_BOT_ACTION_FROM_USER_ACTION)
+            try:
+                obs["intent_and_action"] = _run(A.generate_user_intent_and_bot_action(state=st, events=[], user_action='user said "zzz"', llm=llm))
+            except Exception as e:  # noqa
+                obs["intent_and_action"] = _exc(e)
+        elif task == "v2_flow_nld":
+            obs["parser"] = _parser_name(app, Task.GENERATE_FLOW_CONTINUATION_FROM_NLD)
+            try:
+                r = _run(A.generate_flow(state=st, events=[], llm=llm, flow_id="user expressed greeting"))
+                obs["from_nld"] = {"ok": {"name": r["name"], "body": r["body"]}}
+            except Exception as e:  # noqa
+                obs["from_nld"] = _exc(e)
+    finally:
+        G2.new_uuid = old_uuid
     return obs
 
 
@@ -468,10 +646,13 @@ BOT_CTX = {"secret": E.SECRET, "num": 7, "empty": "", "nil": None, "lst": [1], "
 def botmsg_impl(case):
     from nemoguardrails.llm.types import Task
 
-    app = _app("v1", case["prompts"])
+    app = _app("v1sc" if case.get("sc") else "v1", case["prompts"])
     A = app.llm_generation_actions
     llm = E.ScriptLLM(responses=[case["s"]], fallback=case["s"])
     calls = []
+    ui_event = {"type": "UserIntent", "intent": "ask something"}
+    if case.get("sc"):
+        ui_event["additional_info"] = {"bot_intent_event": {"type": "BotIntent", "intent": case["sc"][0]}, "bot_message_event": {"type": "BotMessage", "text": case["sc"][1]}}
     orig = type(A)._render_string
 
     def spy(template_str, context=None):
@@ -483,7 +664,7 @@ def botmsg_impl(case):
     obs = {"parser": _parser_name(app, Task.GENERATE_BOT_MESSAGE), "bot_messages": [[k, list(v)] for k, v in app.config.bot_messages.items()]}
     try:
         with contextlib.redirect_stdout(io.StringIO()):
-            r = _run(A.generate_bot_message(events=[{"type": "UserMessage", "text": "hi"}, {"type": "UserIntent", "intent": "ask something"}, {"type": "BotIntent", "intent": case["bot_intent"]}], context=dict(BOT_CTX), llm=llm))
+            r = _run(A.generate_bot_message(events=[{"type": "UserMessage", "text": "hi"}, ui_event, {"type": "BotIntent", "intent": case["bot_intent"]}], context=dict(BOT_CTX), llm=llm))
         obs["res"] = {"ok": {"text": r.events[0]["text"], "skip_output_rails": bool((r.context_updates or {}).get("skip_output_rails"))}}
     except Exception as e:  # noqa
         obs["res"] = _exc(e)
@@ -521,12 +702,21 @@ def model_requests(case, obs):
     if k == "fn":
         return [{"m": "C17.all", "s": case["s"], "k": case["k"], "parser": "none"}]
     if k == "act":
-        return [{"m": "C17.all", "s": case["s"], "k": 2, "parser": obs.get("parser", "none")}]
+        reqs = [{"m": "C17.all", "s": case["s"], "k": 2, "parser": obs.get("parser", "none")},
+                {"m": "C17.gen", "s": case["s"], "parser": obs.get("parser", "none"), "uuid": UUID[:8], "name": obs.get("name", "x"), "last_prompt_line": obs.get("last_prompt_line", "\x00none")}]
+        if case["task"] == "ms_next_step":
+            reqs.append({"m": "C17.ms", "s": case["s"], "parser": obs.get("parser", "none"), "parses": obs["parses"]})
+        if case["task"] == "ms_start_flow" and obs.get("src") is not None:
+            reqs.append({"m": "C17.msflow", "flow_id": obs["flow_id"], "body": case["s"]})
+        return reqs
     if k == "botmsg":
         ctx = []
         for key, v in BOT_CTX.items():
             ctx.append([key, v if isinstance(v, str) else bool(v)])
-        return [{"m": "C17.botmsg", "bot_messages": obs["bot_messages"], "ctx": ctx, "render": obs["render_calls"], "bot_intent": case["bot_intent"], "parser": obs["parser"], "llm": case["s"], "pick": 0}]
+        req = {"m": "C17.botmsg", "bot_messages": obs["bot_messages"], "ctx": ctx, "render": obs["render_calls"], "bot_intent": case["bot_intent"], "parser": obs["parser"], "llm": case["s"], "pick": 0}
+        if case.get("sc"):
+            req["sc"] = case["sc"]
+        return [req]
     return []
 
 
@@ -556,6 +746,30 @@ def compare(case, obs, mouts):
         if sorted(m["lb"]) != obs["lb"]:
             return f"line-boundary table differs from str.splitlines(): model {m['lb']} python {obs['lb']}"
         return None
+    if k == "act":
+        g = mouts[1]
+        for key in ("from_instructions", "from_name", "continuation", "from_nld", "value_v2", "user_intent_v2"):
+            if key in obs and g.get(key) != obs[key]:
+                return f"{key}: implementation {obs[key]!r} model {g.get(key)!r} (parser {obs.get('parser', 'none')})"
+        if "intent_and_action" in obs:
+            v = obs["intent_and_action"]
+            if not (isinstance(v, dict) and "err" in v) and g["intent_and_action"] != v:
+                return f"intent_and_action: implementation {v!r} model {g['intent_and_action']!r}"
+            if isinstance(v, dict) and "err" in v:
+                return f"generate_user_intent_and_bot_action raised {v}, the model never does"
+        if "ms" in obs:
+            mm = mouts[2]
+            if obs["ms"] != mm:
+                return f"multi-step next step: implementation {obs['ms']!r} model {mm!r}"
+        if "start_flow" in obs:
+            if obs.get("src") is not None and mouts[2]["src"] != obs["src"]:
+                return f"dynamic flow source: implementation {obs['src']!r} model {mouts[2]['src']!r}"
+            r = obs["start_flow"]
+            if "ok" in r:
+                fallback = r["ok"] == [enc("BotIntent:general response")]
+                if fallback == bool(obs["parses_flow"]) and not (obs["parses_flow"] and fallback):
+                    return f"_process_start_flow: parses_flow={obs['parses_flow']} but result {r['ok']}"
+        obs = {kk: vv for kk, vv in obs.items() if kk not in ("from_instructions", "from_name", "continuation", "from_nld", "value_v2", "user_intent_v2", "intent_and_action", "ms", "start_flow", "parses", "src", "flow_id", "parses_flow", "name", "last_prompt_line")}
     if k in ("fn", "act"):
         for key, v in obs.items():
             if key in ("parser", "nonascii"):
@@ -590,7 +804,7 @@ def compare(case, obs, mouts):
             return f"render calls: implementation {[c[0] for c in obs['render_calls']]} model {mo['rendered']}"
         if (mo["src"] == "predefined") != r["ok"]["skip_output_rails"]:
             return f"skip_output_rails {r['ok']['skip_output_rails']} but model source {mo['src']}"
-        if (mo["src"] == "llm") != (obs["llm_calls"] > 0):
+        if not case.get("sc") and (mo["src"] == "llm") != (obs["llm_calls"] > 0):
             return f"LLM called {obs['llm_calls']} times but model source {mo['src']}"
         return None
     return None
@@ -691,6 +905,8 @@ def signature(case, obs, msg):
         for rec in obs["turns"]:
             if rec.get("hang") or "raised" in rec:
                 through = rec.get("through") or []
+                if mode == "multi_step" and str(rec.get("where", "")).endswith("eval_expression"):
+                    return f"{cls}:{mode}:generated-flow-expression"
                 if rec.get("via_start_flow") or "_process_start_flow" in through:
                     return f"{cls}:{mode}:_process_start_flow"
                 if "Too many events" in rec.get("raised", ""):
